@@ -13,11 +13,13 @@
 (*   DepOk(d)    THE PROPERTY of a dependency file d = [target, deps]:     *)
 (*               target is the output, deps (as a set) = Read(cmd), no     *)
 (*               file twice                                                *)
-(*   WildDep     a transcription of what the pinned wild writes            *)
-(*               (FileLoader::load_inputs / extract_file / loaded_files,   *)
-(*               write_dependency_file): expected NOT to satisfy DepOk     *)
-(*   FixedDep    the same with the thin archive file and the auxiliary     *)
-(*               files pushed to loaded_files: satisfies DepOk (invariant) *)
+(*   WildDep     a transcription of what wild writes today                 *)
+(*               (FileLoader::load_inputs / extract_file / loaded_files /  *)
+(*               AuxiliaryFiles::new / write_dependency_file): satisfies   *)
+(*               DepOk up to the retain-symbols file (invariant)           *)
+(*   OldDep      the algorithm before the fix (thin archive file and       *)
+(*               auxiliary files not pushed, string de-duplication): the   *)
+(*               broken variant TLC must reject                            *)
 (* TLC enumerates every command of up to MaxItems items and exports it     *)
 (* with Read(cmd); checks/c25.py builds the real files, links with         *)
 (* --dependency-file and compares; GNU ld and strace pin Read itself.      *)
@@ -60,51 +62,59 @@ NoDup(s) == \A i, j \in 1..Len(s) : i # j => s[i] # s[j]
 DepOk(d, cmd) == d.target = "out" /\ Rng(d.deps) = Read(cmd) /\ NoDup(d.deps)
 
 (* ----------------------------------------------------------------------- *)
-(* What wild does.  Every input is requested once PER PATH KEY             *)
-(* (path_to_load_index): the key of a command-line file is its spelling as *)
-(* given (Input::path: `absolute: p`), the key of a file named by a script *)
-(* or found through -L is its absolute path, so one file can be loaded     *)
-(* under several keys.  A loaded file pushes itself to loaded_files, a     *)
-(* script then extracts the files it names, a thin archive pushes ITS      *)
-(* MEMBERS ONLY (spelled relative to the archive's own spelling); version  *)
-(* script and export list are read by AuxiliaryFiles::new outside          *)
-(* loaded_files, the retain file by the argument parser.                   *)
-(* write_dependency_file drops repeated path STRINGS.                      *)
+(* What wild does (as coded today).  Every input is requested once PER     *)
+(* PATH KEY (path_to_load_index): the key of a command-line file is its    *)
+(* spelling as given (Input::path: `absolute: p`), the key of a file named *)
+(* by a script or found through -L is its absolute path, so one file can   *)
+(* still be LOADED under several keys.  A loaded file pushes itself to     *)
+(* loaded_files, a script then extracts the files it names, a thin archive *)
+(* pushes itself and then its members (process_thin_archive); after the    *)
+(* inputs, AuxiliaryFiles::new pushes the version script and then the      *)
+(* export list (read_script_data).  write_dependency_file lists every file *)
+(* once, under its first spelling (de-duplication on the absolute path).   *)
+(* Still outside loaded_files: the --retain-symbols-file file, read by the *)
+(* argument parser (known finding missing:retain-symbols-file).            *)
+(*                                                                         *)
+(* The algorithm before the fix is kept as the deliberately broken variant *)
+(* (old = TRUE): thin archive pushes its members only, auxiliary files are *)
+(* not pushed, de-duplication on the path STRING.  TLC must reject it.     *)
 (* An entry is <<file, spelling>>, spelling in {"rel", "dot", "abs"}.      *)
 SpellOfItem(i) == IF i = "o2x" THEN "dot" ELSE IF i = "lZ" THEN "abs" ELSE "rel"
 
 RECURSIVE LoadSeq(_, _, _)
-(* e = <<file, spelling>>;  byFile: the repaired keying (one key per file) *)
-LoadOne(e, st, fixed) ==
-    LET key == IF fixed THEN e[1] ELSE e IN
-    IF key \in st.req THEN st
-    ELSE LET st1 == [st EXCEPT !.req = @ \cup {key}] IN
+LoadOne(e, st, old) ==
+    IF e \in st.req THEN st
+    ELSE LET st1 == [st EXCEPT !.req = @ \cup {e}] IN
          IF e[1] = "T" THEN
-              [st1 EXCEPT !.out = @ \o (IF fixed THEN <<e>> ELSE <<>>)
+              [st1 EXCEPT !.out = @ \o (IF old THEN <<>> ELSE <<e>>)
                                     \o [k \in 1..Len(Members) |-> <<Members[k], e[2]>>]]
          ELSE IF IsScript(e[1]) THEN
               LoadSeq([k \in 1..Len(Names[e[1]]) |-> <<Names[e[1]][k], "abs">>],
-                      [st1 EXCEPT !.out = Append(@, e)], fixed)
+                      [st1 EXCEPT !.out = Append(@, e)], old)
          ELSE [st1 EXCEPT !.out = Append(@, e)]
-LoadSeq(es, st, fixed) ==
-    IF es = <<>> THEN st ELSE LoadSeq(Tail(es), LoadOne(Head(es), st, fixed), fixed)
+LoadSeq(es, st, old) ==
+    IF es = <<>> THEN st ELSE LoadSeq(Tail(es), LoadOne(Head(es), st, old), old)
 
 RECURSIVE Dedup(_, _, _)
-Dedup(s, seen, fixed) ==
+Dedup(s, seen, old) ==
     IF s = <<>> THEN <<>>
-    ELSE LET key == IF fixed THEN Head(s)[1] ELSE Head(s) IN
-         IF key \in seen THEN Dedup(Tail(s), seen, fixed)
-         ELSE <<Head(s)[1]>> \o Dedup(Tail(s), seen \cup {key}, fixed)
+    ELSE LET key == IF old THEN Head(s) ELSE Head(s)[1] IN        \* path string / absolute path
+         IF key \in seen THEN Dedup(Tail(s), seen, old)
+         ELSE <<Head(s)[1]>> \o Dedup(Tail(s), seen \cup {key}, old)
 
 Entries(cmd) == [k \in 1..Len(InputItems(cmd)) |->
                     <<FileOf(InputItems(cmd)[k]), SpellOfItem(InputItems(cmd)[k])>>]
-Loaded(cmd, fixed) == LoadSeq(Entries(cmd), [req |-> {}, out |-> <<>>], fixed).out
+Loaded(cmd, old) == LoadSeq(Entries(cmd), [req |-> {}, out |-> <<>>], old).out
 
-WildDep(cmd) == [target |-> "out", deps |-> Dedup(Loaded(cmd, FALSE), {}, FALSE)]
-(* the repair: one key per file, the thin archive file and the auxiliary files are pushed too *)
-FixedDep(cmd) == [target |-> "out",
-                  deps |-> LET aux == SetToSeq(AuxRead(cmd)) IN
-                           Dedup(Loaded(cmd, TRUE) \o [k \in 1..Len(aux) |-> <<aux[k], "rel">>], {}, TRUE)]
+(* AuxiliaryFiles::new: version script first, then the export list slot *)
+AuxPushed(cmd) == (IF "V" \in Rng(cmd) THEN <<<<"V", "rel">>>> ELSE <<>>)
+                  \o (LET L == LastOf(cmd, {"Y", "E"}) IN IF L = {} THEN <<>> ELSE <<<<CHOOSE x \in L : TRUE, "rel">>>>)
+
+WildDep(cmd) == [target |-> "out", deps |-> Dedup(Loaded(cmd, FALSE) \o AuxPushed(cmd), {}, FALSE)]
+OldDep(cmd) == [target |-> "out", deps |-> Dedup(Loaded(cmd, TRUE), {}, TRUE)]
+(* what is still to do: list the retain file as well *)
+IdealDep(cmd) == [target |-> "out",
+                  deps |-> WildDep(cmd).deps \o (IF "R" \in Rng(cmd) THEN <<"R">> ELSE <<>>)]
 
 (* an object loaded under two keys is linked twice: duplicate symbols, the link fails (not C25's
    business; exported so that the harness knows which commands cannot be assessed) *)
@@ -118,12 +128,18 @@ Init == cmd \in Cmds
 Next == UNCHANGED cmd
 Spec == Init /\ [][Next]_cmd
 
-FixedSatisfies == DepOk(FixedDep(cmd), cmd)          \* the rule is implementable
-WildSatisfies == DepOk(WildDep(cmd), cmd)            \* expected to be violated on the pinned tree
-(* wild's list never contains a file that was not read *)
+(* THE PROPERTY, as an invariant of the algorithm coded today, up to the one recorded omission *)
+DepOkExcept(d, c, X) == d.target = "out" /\ Rng(d.deps) = Read(c) \ X /\ NoDup(d.deps)
+CodedSatisfiesUpToRetain == DepOkExcept(WildDep(cmd), cmd, {"R"})
+IdealSatisfies == DepOk(IdealDep(cmd), cmd)              \* the rule is implementable in full
 WildNeverExtra == Rng(WildDep(cmd).deps) \subseteq Read(cmd)
+(* must be violated (DepFile_claim.cfg): the retain file is still missing *)
+WildSatisfies == DepOk(WildDep(cmd), cmd)
+(* must be violated (DepFile_old.cfg): the algorithm before the fix, the broken variant *)
+OldSatisfies == DepOk(OldDep(cmd), cmd)
 
 Emit == LET wd == WildDep(cmd) IN
         PrintT(<<"REPLAY", ToJson([cmd |-> cmd, read |-> SetToSeq(Read(cmd)), wild |-> wd.deps,
-                                   wild_links |-> WildLinks(cmd), wild_ok |-> DepOk(wd, cmd)])>>)
+                                   wild_links |-> WildLinks(cmd), wild_ok |-> DepOk(wd, cmd),
+                                   old |-> OldDep(cmd).deps])>>)
 =============================================================================
